@@ -1561,9 +1561,10 @@ where
                                 }
                                 ExtendedProtocolData::Bind { data, metadata } => {
                                     // This is using a prepared statement
-                                    if let Some(client_given_name) = metadata {
+                                    if let Some((parse, hash)) = metadata {
                                         self.ensure_prepared_statement_is_on_server(
-                                            client_given_name,
+                                            &parse,
+                                            hash,
                                             &pool,
                                             server,
                                             &address,
@@ -1575,9 +1576,10 @@ where
                                 }
                                 ExtendedProtocolData::Describe { data, metadata } => {
                                     // This is using a prepared statement
-                                    if let Some(client_given_name) = metadata {
+                                    if let Some((parse, hash)) = metadata {
                                         self.ensure_prepared_statement_is_on_server(
-                                            client_given_name,
+                                            &parse,
+                                            hash,
                                             &pool,
                                             server,
                                             &address,
@@ -1879,43 +1881,34 @@ where
     /// Makes sure the the checked out server has the prepared statement and sends it to the server if it doesn't
     async fn ensure_prepared_statement_is_on_server(
         &mut self,
-        client_name: String,
+        parse: &Arc<Parse>,
+        hash: u64,
         pool: &ConnectionPool,
         server: &mut Server,
         address: &Address,
     ) -> Result<(), Error> {
-        match self.prepared_statements.get(&client_name) {
-            Some((parse, hash)) => {
-                debug!("Prepared statement `{}` found in cache", client_name);
-                // In this case we want to send the parse message to the server
-                // since pgcat is initiating the prepared statement on this specific server
-                match self
-                    .register_parse_to_server_cache(true, hash, parse, pool, server, address)
-                    .await
-                {
-                    Ok(_) => (),
-                    Err(err) => match err {
-                        // The server refused our Parse. That can pass (a failed transaction
-                        // block refuses everything): the statement stays the client's, the
-                        // Bind that follows gets the server's error.
-                        Error::PreparedStatementError => {
-                            debug!("Could not prepare {} on the server", client_name);
-                        }
-
-                        _ => {
-                            return Err(err);
-                        }
-                    },
+        // The statement is the one the name stood for when the Bind / Describe was read:
+        // a Close later in the same batch has taken the name away by now.
+        // We send the parse message to the server ourselves,
+        // since pgcat is initiating the prepared statement on this specific server
+        match self
+            .register_parse_to_server_cache(true, &hash, parse, pool, server, address)
+            .await
+        {
+            Ok(_) => (),
+            Err(err) => match err {
+                // The server refused our Parse. That can pass (a failed transaction
+                // block refuses everything): the statement stays the client's, the
+                // Bind that follows gets the server's error.
+                Error::PreparedStatementError => {
+                    debug!("Could not prepare {} on the server", parse.name);
                 }
-            }
 
-            None => {
-                return Err(Error::ClientError(format!(
-                    "prepared statement `{}` not found",
-                    client_name
-                )))
-            }
-        };
+                _ => {
+                    return Err(err);
+                }
+            },
+        }
 
         Ok(())
     }
@@ -2035,7 +2028,7 @@ where
         let client_given_name = Bind::get_name(&message)?;
 
         match self.prepared_statements.get(&client_given_name) {
-            Some((rewritten_parse, _)) => {
+            Some((rewritten_parse, hash)) => {
                 let message = Bind::rename(message, &rewritten_parse.name)?;
 
                 debug!(
@@ -2044,7 +2037,10 @@ where
                 );
 
                 self.extended_protocol_data_buffer.push_back(
-                    ExtendedProtocolData::create_new_bind(message, Some(client_given_name)),
+                    ExtendedProtocolData::create_new_bind(
+                        message,
+                        Some((rewritten_parse.clone(), *hash)),
+                    ),
                 );
 
                 Ok(())
@@ -2096,7 +2092,7 @@ where
         let client_given_name = describe.statement_name.clone();
 
         match self.prepared_statements.get(&client_given_name) {
-            Some((rewritten_parse, _)) => {
+            Some((rewritten_parse, hash)) => {
                 let describe = describe.rename(&rewritten_parse.name);
 
                 debug!(
@@ -2107,7 +2103,7 @@ where
                 self.extended_protocol_data_buffer.push_back(
                     ExtendedProtocolData::create_new_describe(
                         describe.try_into()?,
-                        Some(client_given_name),
+                        Some((rewritten_parse.clone(), *hash)),
                     ),
                 );
 
